@@ -27,6 +27,7 @@ import (
 	"github.com/ysugimoto/falco/v2/resolver"
 
 	"verif/harness/fw"
+	"verif/harness/lintutil"
 )
 
 var originPort string
@@ -69,8 +70,16 @@ func readLine(prefix, o string) string {
 	return `log "` + prefix + `|" ` + strings.Join(parts, ` "|" `) + `;`
 }
 
-func objectsProgram(r *rand.Rand) string {
+// objectsModule is included at the root by half of the programs: it declares Fastly subroutines
+// that the main file declares as well (the bodies are concatenated when the program is loaded)
+const objectsModule = "sub vcl_deliver {\n  set resp.http.Common = \"c\";\n}\nsub vcl_recv {\n  set req.http.Common-Recv = req.http.Common-Recv \"r\";\n}\n"
+
+func objectsProgram(r *rand.Rand) (string, bool) {
 	var sb strings.Builder
+	withModule := r.Intn(2) == 0
+	if withModule {
+		sb.WriteString("include \"edge_common\";\n")
+	}
 	fmt.Fprintf(&sb, "backend origin { .host = \"127.0.0.1\"; .port = \"%s\"; }\n", originPort)
 	sb.WriteString("sub vcl_recv {\n#FASTLY RECV\n  set req.backend = origin;\n  set req.http.Keep = \"keep\";\n  log \"recv-in|deliver-set=\" req.http.Set-In-Deliver;\n")
 	if r.Intn(4) == 0 {
@@ -100,8 +109,12 @@ func objectsProgram(r *rand.Rand) string {
 	for _, m := range objMods(r, "resp", "d") {
 		sb.WriteString("  " + m + "\n")
 	}
-	sb.WriteString("  set req.http.Set-In-Deliver = \"1\";\n  return(deliver);\n}\n")
-	return sb.String()
+	sb.WriteString("  set req.http.Set-In-Deliver = \"1\";\n")
+	if !withModule {
+		sb.WriteString("  return(deliver);\n")
+	}
+	sb.WriteString("}\n")
+	return sb.String(), withModule
 }
 
 func logsOf(doc any) []string {
@@ -125,10 +138,14 @@ func logsOf(doc any) []string {
 func runObjects(oc *fw.Outcome, cc ccase) {
 	r := rand.New(rand.NewSource(cc.Seed))
 	for i := 0; i < cc.N; i++ {
-		vcl := objectsProgram(r)
+		vcl, withModule := objectsProgram(r)
 		fw.JournalS(vcl)
 		urls := []string{"/a", "/a", "/b", "/a", "/pass/x", "/b", "/a"}
-		it := interpreter.New(context.WithResolver(resolver.NewStaticResolver("main.vcl", vcl)))
+		var rslv resolver.Resolver = resolver.NewStaticResolver("main.vcl", vcl)
+		if withModule {
+			rslv = &lintutil.MapResolver{Main: vcl, Modules: map[string]string{"edge_common": objectsModule}, Budget: 100}
+		}
+		it := interpreter.New(context.WithResolver(rslv))
 		type seen struct{ deliverIn, hitObj string }
 		first := map[string]seen{}
 		hits := 0
@@ -157,13 +174,17 @@ func runObjects(oc *fw.Outcome, cc ccase) {
 				break
 			}
 			var cur seen
+			nDeliverIn := 0
 			detail := func() map[string]any {
 				return map[string]any{"vcl": vcl, "request_index": k, "url": u, "logs": logs}
 			}
 			for _, l := range logs {
 				switch {
 				case strings.HasPrefix(l, "deliver-in|"):
-					cur.deliverIn = strings.TrimPrefix(l, "deliver-in|")
+					nDeliverIn++
+					if nDeliverIn == 1 {
+						cur.deliverIn = strings.TrimPrefix(l, "deliver-in|")
+					}
 				case strings.HasPrefix(l, "hit-obj|"):
 					cur.hitObj = strings.TrimPrefix(l, "hit-obj|")
 				case strings.HasPrefix(l, "deliver-req|"):
@@ -179,6 +200,11 @@ func runObjects(oc *fw.Outcome, cc ccase) {
 				}
 			}
 			if bad {
+				break
+			}
+			if nDeliverIn > 1 {
+				oc.Violate("objects:O4/body-runs-more-than-once", fmt.Sprintf("request %d for %s: the body of vcl_deliver ran %d times in one request", k, u, nDeliverIn), detail())
+				bad = true
 				break
 			}
 			if cur.deliverIn == "" {
@@ -202,6 +228,9 @@ func runObjects(oc *fw.Outcome, cc ccase) {
 				bad = true
 				break
 			}
+		}
+		if !bad && withModule {
+			oc.Tag("objects:with-root-module(duplicated Fastly subroutines)")
 		}
 		if !bad && hits >= 2 {
 			oc.NonTrivialS(vcl)
